@@ -272,6 +272,7 @@ def r19_2(ctx):
         ctx.undecided(R, 'fold-seed', 'no fold over the per-key values found in the union batch (shape left the recognised family)', fn=un)
     # the merged value is what gets inserted
     vals = []
+    iter_vals = []
     for p in explore(un, max_visits=1, havoc=True, limit=4000):
         if p.end == 'cut' and helper_fold == {un.path}:
             # loop form inside this function (possibly an inlined helper): over all paths with a merger configured the inserted value
@@ -294,9 +295,15 @@ def r19_2(ctx):
                 break
             if ins and mg and mg[-1][3] == 1:
                 v = ins[0][3][2]
-                ok = any(is_call(x, '::fold') for x in walk(v)) or any(x[0] == 'havoc' for x in walk(v)) and bool(helper_fold)
-                ctx.check(R, ok, 'inserted-is-merged', 'with a merger configured the value inserted for a key must be the fold of all its values: %s' % fmt(v)[:80], fn=un)
-                break
+                ok = any(is_call(x, '::fold') or is_call(x, '::reduce') for x in walk(v)) or any(x[0] == 'havoc' for x in walk(v)) and bool(helper_fold)
+                empty = any(d[2][0] == 'discr' and d[3] == 0 and (is_call(d[2][1], '::split_first') or is_call(d[2][1], '::first') or is_call(d[2][1], '::next')) and
+                            any(is_call(y, "Streamer<'a>>::next") for y in walk(d[2][1][2][0])) for d in p.cdecisions())
+                iter_vals.append((ok, empty, v, [d for d in p.decisions][-1:] ))
+    if iter_vals:
+        bad = [(v, ds) for ok, empty, v, ds in iter_vals if not ok and not empty]
+        ctx.check(R, any(ok for ok, _, _, _ in iter_vals) and not bad, 'inserted-is-merged',
+                  'with a merger configured the value inserted for a key must be the fold of all its values on every path; found %s (under %s): a shortcut that bypasses the merger is wrong for mergers that are not idempotent (sum)' % (
+                      fmt(bad[0][0])[:60] if bad else 'no fold', fmt(bad[0][1][0][2])[:60] if bad and bad[0][1] else '-'), fn=un)
     _finish_inserted(ctx, R, un, vals)
 
 
@@ -543,6 +550,17 @@ def r19_8(ctx):
                 nonempty = (bool(o) != neg) is False
                 ctx.check(R, bool(sends) == nonempty, 'remainder', 'when the input ends the batcher %s its remaining batch on the path where that batch is %s: the last (partial) batch of every build is lost' % (
                     'sends' if sends else 'does not send', 'non-empty' if nonempty else 'empty'), fn=f)
+            elif e[0] == 'bin' and e[1] in ('Eq', 'Ne', 'Lt', 'Le', 'Gt', 'Ge') and ((is_call(e[2], '::len') and e[3][0] == 'const') or (is_call(e[3], '::len') and e[2][0] == 'const')):
+                import operator as _op
+                ops = {'Eq': _op.eq, 'Ne': _op.ne, 'Lt': _op.lt, 'Le': _op.le, 'Gt': _op.gt, 'Ge': _op.ge}
+                if is_call(e[2], '::len'):
+                    pred = lambda n_: ops[e[1]](n_, e[3][1])
+                else:
+                    pred = lambda n_: ops[e[1]](e[2][1], n_)
+                taken = {n_ for n_ in range(0, 6) if bool(pred(n_)) == (bool(o) != neg)}
+                want = set(range(1, 6)) if sends else {0}
+                ctx.check(R, taken == want, 'remainder', 'when the input ends the batcher %s its remaining batch for lengths %s (it must send exactly the non-empty ones): a last batch of a size the test excludes is lost' % (
+                    'sends' if sends else 'drops', sorted(taken)), fn=f)
             else:
                 ctx.undecided(R, 'remainder', 'the test guarding the final send is not `is_empty()`', fn=f)
         else:
